@@ -610,6 +610,8 @@ def rule_dispatch(ctx):
             ev_ = w.events[i_]
             if ev_.kind == "store" and isinstance(ev_.data["target"].value, ast.Name) and (as_poly(ev_.data["index"]) - as_poly(vis_["k"])).is_zero():
               filled.setdefault(ev_.data["target"].value.id, set()).add(id(bp))
+            elif ev_.kind == "mutate" and ev_.data["method"] == "append" and isinstance(ev_.data.get("target"), ast.Name):
+              filled.setdefault(ev_.data["target"].id, set()).add(id(bp))          # res.append(v) in pass i fills res[i]
         calls_fb = any(w.events[i_].kind == "store" and "lit('Add')" in repr(w.events[i_].data["value"]) or w.events[i_].kind == "store" and "lit('Double')" in repr(w.events[i_].data["value"])
                        or w.events[i_].kind == "store" and "lit('Subtract')" in repr(w.events[i_].data["value"]) for bp in paths_ for i_ in bp[2].trace[bp[3]:])
         if not calls_fb:
@@ -941,13 +943,22 @@ def rule_comb(ctx):
   ORDER = sym.mk("attr", SELF, "n")
   GEN = sym.mk("attr", SELF, "g")
   fors = [i for i in w.loop_info.values() if isinstance(i["node"], ast.For) and i["visits"]]
-  outer = [i for i in fors if not isinstance(i["iter"], Seq) and as_poly(i["iter"]).as_atom() is not None and as_poly(i["iter"]).as_atom().kind == "range"]
-  inner = [i for i in fors if not isinstance(i["iter"], Seq) and as_poly(i["iter"]).as_atom() is not None and as_poly(i["iter"]).as_atom().kind == "enumerate"]
-  if len(outer) != 1 or len(inner) != 1:
+  # the round loop is the range loop that contains the loop over the scalars (other loops, e.g. one that accumulates the mask, are not it)
+  nested = [(o, i) for o in fors for i in fors if o is not i and any(x is i["node"] for x in ast.walk(o["node"]))
+            and not isinstance(o["iter"], Seq) and as_poly(o["iter"]).as_atom() is not None and as_poly(o["iter"]).as_atom().kind == "range"]
+  if len(nested) != 1:
     raise Incomplete("BatchMultiplyG: expected one range loop over tooth offsets and one enumerate loop over scalars", f.where)
-  outer, inner = outer[0], inner[0]
+  outer, inner = nested[0]
   # (1) scalars reduced
-  lst = as_poly(inner["iter"]).as_atom().args[0]
+  ia_ = as_poly(inner["iter"]).as_atom() if not isinstance(inner["iter"], Seq) else None
+  if ia_ is not None and ia_.kind == "enumerate":
+    lst = as_poly(ia_.args[0])
+  elif ia_ is not None and ia_.kind == "range" and len(ia_.args) == 1 and as_poly(ia_.args[0]).as_atom() is not None and as_poly(ia_.args[0]).as_atom().kind == "len":
+    lst = as_poly(as_poly(ia_.args[0]).as_atom().args[0])
+  elif ia_ is not None:
+    lst = as_poly(inner["iter"])
+  else:
+    raise Incomplete("BatchMultiplyG: the loop over the scalars iterates over a literal", f.where)
   la = lst.as_atom()
   kin = inner["visits"][0]["k"]
   if la is not None and la.kind == "map" and la.args[2] == S0:
@@ -1027,7 +1038,7 @@ def rule_comb(ctx):
     ok3 = False
     why3.append("shift amount %r is not the offset of the current round" % (E,))
   if ok3 and MASK is not None:
-    sa = as_poly(MASK).as_atom()
+    sa = sym.resolve_sums(w, as_poly(MASK)).as_atom()          # a mask accumulated by a loop reads as the sum it computes
     good = False
     if sa is not None and sa.kind == "sum":
       m = sa.args[0].as_atom()
@@ -1083,6 +1094,10 @@ def rule_comb(ctx):
     pts = [as_poly(e.data["base"]) for e in st_pts]
     head_r = as_poly(vis["head"].env[rname]) if rname in vis["head"].env and not isinstance(vis["head"].env[rname], Seq) else None
     pts_final = [as_poly(x) for k_, x in s.env.items() if not isinstance(x, Seq) and as_poly(x).as_atom() is not None and as_poly(x).as_atom().kind == "sym" and k_ != rname]
+    # the round's points may also be known exactly: [cache[m_j] for the scalars] (an append loop reads as that comprehension)
+    pts_final += [as_poly(x) for k_, x in s.env.items() if isinstance(x, Poly) and x.as_atom() is not None and x.as_atom().kind == "map" and k_ != rname
+                  and as_poly(x.as_atom().args[2]) == lst and as_poly(x.as_atom().args[0]).as_atom() is not None and as_poly(x.as_atom().args[0]).as_atom().kind == "idx"
+                  and as_poly(as_poly(x.as_atom().args[0]).as_atom().args[0]) == cache]
     if is_first:
       n_first += 1
       if rv is None or rv not in pts_final:
@@ -1123,8 +1138,10 @@ def rule_batchinv(ctx):
   f, w = walk(repo, "BatchInverse")
   values = P("param", [q for q in f.params() if q != "self"][0])
   fors = [i for i in w.loop_info.values() if isinstance(i["node"], ast.For) and i["visits"]]
-  fwd = [i for i in fors if not isinstance(i["iter"], Seq) and as_poly(i["iter"]) == sym.mk("enumerate", values)]
   n = sym.mk("len", values)
+  # the forward pass visits the indices 0 .. len-1 in order: over enumerate(values), over the values themselves, or over range(len(values))
+  fwd = [i for i in fors if not isinstance(i["iter"], Seq) and (as_poly(i["iter"]) == sym.mk("enumerate", values) or as_poly(i["iter"]) == values or
+                                                                as_poly(i["iter"]) == sym.mk("range", n) or as_poly(i["iter"]) == sym.mk("range", Poly.const(0), n))]
   bwd = [i for i in fors if not isinstance(i["iter"], Seq) and as_poly(i["iter"]) == sym.mk("range", n - 1, Poly.const(-1), Poly.const(-1))]
   if len(fwd) != 1 or len(bwd) != 1:
     raise Incomplete("BatchInverse: expected a forward pass over enumerate(values) and a backward pass over range(len(values) - 1, -1, -1)", f.where)
@@ -1181,7 +1198,7 @@ def rule_batchinv(ctx):
     if v2 is not vis:
       continue
     n_paths += 1
-    if kind != "fall":
+    if kind not in ("fall", "continue"):
       probs.append("forward pass left by %s" % kind)
       continue
     newf = s.facts[len(vis["head"].facts):]
@@ -1220,7 +1237,7 @@ def rule_batchinv(ctx):
       if v2 is not vb:
         continue
       n_paths += 1
-      if kind != "fall":
+      if kind not in ("fall", "continue"):
         probs.append("backward pass left by %s" % kind)
         continue
       newf = s.facts[len(vb["head"].facts):]
